@@ -81,3 +81,27 @@ def call(fn, *a):
             raise
         t = type(e)
         return ("exc", t.__name__ if t.__module__ == "builtins" else f"{t.__module__}.{t.__name__}")
+
+
+class Lossy:
+    """a value whose pickled form drops a field: the object read back from a file store differs from the live one"""
+
+    def __init__(self, tag):
+        self.tag = tag
+        self.scratch = "only in memory"
+
+    def __getstate__(self):
+        return {"tag": self.tag}
+
+    def __setstate__(self, st):
+        self.tag = st["tag"]
+        self.scratch = None
+
+    def __eq__(self, o):
+        return isinstance(o, Lossy) and (o.tag, o.scratch) == (self.tag, self.scratch)
+
+    def __hash__(self):
+        return hash(("Lossy", self.tag))
+
+    def __repr__(self):
+        return f"Lossy({self.tag!r}, scratch={self.scratch!r})"
